@@ -6,6 +6,7 @@ import Mrm.Props.C01
 import Mrm.Props.C02
 import Mrm.Props.C03
 import Mrm.Props.C06
+import Mrm.Props.C01Hist
 
 namespace Mrm
 
@@ -57,5 +58,11 @@ def exBlank : Xml := exMsg (.node "roStoryReplace" [] none none
 
 example : DomC03 ⟨exRo, exBlank, .StoryReplace⟩ = true := by decide
 example : (addK .StoryReplace exRo exBlank).err = some .merge ∧ (addK .StoryReplace exRo exBlank).ro = exRo := by decide
+
+/-- a two-step history: the move, then a swap of D with A at the state the move produced -/
+example : DomOrderRun exRo [⟨5, some "RO1", .EAStoryMove, exMove⟩, ⟨6, some "RO1", .EAStorySwap, exSwap⟩] :=
+  ⟨by decide, by decide, by decide, by decide, trivial⟩
+example : specRun (storyIds exRo) [⟨5, some "RO1", .EAStoryMove, exMove⟩, ⟨6, some "RO1", .EAStorySwap, exSwap⟩] =
+    [some "C", some "D", some "B", some "A"] := by decide
 
 end Mrm
